@@ -112,6 +112,13 @@ GSetLabel(r, n, b) ==
   /\ SetLabel(r, n, b)
   /\ Log([op |-> "setlabel", repo |-> r, name |-> n.n, bundle |-> b])
 
+\* a label set interrupted before (j = 0) or after (j = 1) its store write: a label is one object, written at once -
+\* either nothing happened or the label is set; the previous assignment is never lost
+GSetLabelCrash(r, n, b, j) ==
+  /\ WithCrash
+  /\ IF j = 0 THEN r \in repos /\ b \in VisibleIn(r) /\ UNCHANGED mvars ELSE SetLabel(r, n, b)
+  /\ Log([op |-> "setlabelcrash", repo |-> r, name |-> n.n, bundle |-> b, after |-> j])
+
 GDeleteLabel(r, n) ==
   /\ r \in repos
   /\ DeleteLabel(r, n)
@@ -195,6 +202,8 @@ GStep ==
         \E keys \in {[j \in 1..R(0..4) |-> R(Paths)]} : GUploadKeys(r, t, keys, skip)
   \/ "label" \in Ops /\ \E r \in repos, i \in 1..LabelW : \E b \in {R(VisibleIn(r) \cup {0})} : \E n \in {R(Labels)} :
         b # 0 /\ GSetLabel(r, n, b)
+  \/ "label" \in Ops /\ \E r \in repos : \E b \in {R(VisibleIn(r) \cup {0})} : \E n \in {R(Labels)}, j \in {R({0, 1})} :
+        b # 0 /\ GSetLabelCrash(r, n, b, j)
   \/ "label" \in Ops /\ \E r \in repos : \E n \in {R(Labels)} : GDeleteLabel(r, n)
   \/ "delete" \in Ops /\ \E r \in repos : \E b \in {R(VisibleIn(r) \cup {0})} : b # 0 /\ GDeleteBundle(r, b)
   \/ \E r \in repos : GDeleteRepo(r)
